@@ -419,12 +419,43 @@ func run(c *vf.Ctx, si int) {
 		if !tryPool("signed-by-non-owner", named(thief, stateNonce(owner)+1), true) {
 			return
 		}
+		// a named-sender tx admitted while its signer owns the name must not execute after the name moved on:
+		// heir gets state nonce 2, the owner's pooled tx carries nonce 3 (= owner nonce after the update + 1)
+		h1 := rig.TxSpec{Type: types.TxType_TRANSFER, From: heir, To: a1.Addr, Nonce: stateNonce(heir) + 1, Amount: big.NewInt(1), GasPrice: gp, ChainID: cid()}.Build()
+		h2 := rig.TxSpec{Type: types.TxType_TRANSFER, From: heir, To: a1.Addr, Nonce: stateNonce(heir) + 2, Amount: big.NewInt(1), GasPrice: gp, ChainID: cid()}.Build()
+		if produce("heir txs", h1, h2) == nil {
+			return
+		}
+		pending := named(owner, stateNonce(owner)+2)
+		if res, _ := nut.MempoolPut(rig.EncTx(pending)); res != "" {
+			c.Count("named/pending-owner-tx/refused", 1)
+		} else {
+			c.Count("named/pending-owner-tx/admitted", 1)
+		}
 		// ownership moves to heir
 		upd := rig.TxSpec{Type: types.TxType_GOVERNANCE, From: owner, To: []byte(types.AergoName), Nonce: stateNonce(owner) + 1, Amount: rig.Aergo,
 			Payload: rig.GovPayload("v1updateName", nm, heir.B58()), GasPrice: gp, ChainID: cid()}.Build()
 		if rsp := produce("update name", upd); rsp != nil && len(rsp.Included) == 1 && rsp.Receipts[0].Status == "SUCCESS" {
 			b, _ := nut.Best()
 			owners[nm] = append(owners[nm], [2]interface{}{b.No, heir.Addr})
+			// the producer now fetches from the pool: the previous owner's pending tx must not be executed
+			nut.MempoolSync()
+			if rsp := func() *rig.ProduceRsp {
+				r, err := nut.Produce(&rig.ProduceReq{FromMempool: true, Connect: true, Confirms: -1, SignKey: 0})
+				if err != nil || r.Panic != "" || r.GenErr != "" || r.AddErr != "" {
+					return nil
+				}
+				return r
+			}(); rsp != nil {
+				for _, h := range rsp.Included {
+					if bytes.Equal(h, pending.Hash) {
+						c.Violation("chain-executed-unauthorised-tx/named-sender-owner-changed-while-pooled", fmt.Sprintf("%s: a tx with sender name %s signed by its owner, admitted to the pool and still waiting when the name was transferred, was executed against the NEW owner's account", scen, nm), caseDesc{scen, "named/pending", nil})
+						return
+					}
+				}
+				c.Count("named/pending-owner-tx/not-executed-after-transfer", 1)
+				c.Nontrivial(scen + "|named|pending-after-transfer")
+			}
 			if !tryPool("signed-by-previous-owner", named(owner, stateNonce(heir)+1), true) {
 				return
 			}
